@@ -63,7 +63,7 @@ def rule_of_seed(sid):
     return None
 
 
-def small_slice():
+def small_slice(max_lines=None):
     """S_q: the smallest fixture of every rule family directory + all classification fixtures <= 30 lines
     + the single-construct generated designs."""
     best = {}
@@ -75,4 +75,6 @@ def small_slice():
     out = sorted(i["id"] for i in best.values())
     out += [it["id"] for it in manifest()["items"] if it["kind"] == "cls" and it["lines"] <= 30]
     out += gen.ids(single_only=True)
+    if max_lines is not None:
+        out = [s for s in out if len(lines_of(s)) <= max_lines]
     return out
